@@ -240,6 +240,17 @@ class Gen20(storegen2.Gen2):
             da = self.pick(src_ents, "data_array")
             self.do(["create", da.path[:2], "multi_tag", rng.choice(["mt", "m2", "é"]), "t", da.path])
             made = True
+        if "data_array" not in have and "block" in have and rng.random() < 0.5:
+            self.use(sf)
+            self.do(["create", self.pick(src_ents, "block").path, "data_array", rng.choice(["a", "a2", "é"]), "t", None])
+            made = True
+            src_ents = self.inv(sf)
+            have = {e.kind for e in src_ents}
+        if "tag" not in have and "data_array" in have and rng.random() < 0.6:
+            self.use(sf)
+            da = self.pick(src_ents, "data_array")
+            self.do(["create", da.path[:2], "tag", rng.choice(["tg", "t2", "é"]), "t", None])
+            made = True
         src_frames = self.frames(sf)
         if not src_frames and "block" in have and rng.random() < 0.3:
             self.use(sf)
@@ -260,6 +271,16 @@ class Gen20(storegen2.Gen2):
         src = self.pick(src_ents, kind if rng.random() < 0.95 else None)
         if src is None:
             return False
+        if kind in ("tag", "multi_tag") and src.kind == kind and rng.random() < 0.5:
+            # give the source internal links worth copying: a reference to / a feature on an array of its block
+            da = self.pick(src_ents, "data_array", block=src.block)
+            if da is not None:
+                self.use(sf)
+                self.do(["append", src.path, "references", {"o": da.path}])
+                if rng.random() < 0.5:
+                    self.do(["create_feature", src.path, da.path, rng.choice(["untagged", "tagged", "indexed"])])
+                self.stats["enriched"] = self.stats.get("enriched", 0) + 1
+                self.use(df)
         keep = rng.random() < 0.5
         name = rng.choice(storegen2.NEW_NAMES) if rng.random() < 0.7 else ""
         dest_path = None
@@ -445,7 +466,8 @@ def correspondence(ctx):
             samples.append({"history": h, "first_copies": [c[0] for c in cp], "outputs": [c[1] for c in cp]})
     return {"evaluations": total, "distinct_nontrivial": len(seen),
             "rule": "adaptive random histories over two files (profile links, then mixed): create/link/role/delete/attr ops "
-                    "of the structural model plus copies of blocks, arrays, tags, multi-tags, sections (recursive and "
+                    "of the structural model plus copies of blocks, arrays, data frames, tags, multi-tags (sources enriched with "
+                    "references / features before half of the tag copies), sections (recursive and "
                     "shallow, into the file or a section) and properties, same-file and cross-file, ids kept or "
                     "regenerated, with/without a new name (plain, non-ASCII, UUID-looking, existing names); every access "
                     "path of the destination container queried after a copy; HDF5-level dumps of both files compared "
